@@ -31,6 +31,14 @@ CHECKS = {
    "Every MMIO load/store of the real MmioTransport is served and recorded by a register-level virtio-mmio model (legacy and modern) plugged in through safe-mmio's custom-mmio backend; generated operation sequences and probe headers are judged per operation against access scripts/constraints derived from VirtIO 1.2 4.2.2-4.2.4 and against the model's resulting state; SomeTransport::Mmio must be trace-identical.",
    "Trusted: the virtio-mmio register model and per-operation scripts written from the specification; all MMIO goes through safe-mmio.",
    "proptest op sequences + register-level reference device, ordered-trace oracle, differential vs SomeTransport"),
+ "C11": ("pci-transport", "exploration", "4 C11",
+   "Generated PCI configuration spaces (capability lists in any order with duplicates, short/foreign capabilities, bar 0..255, extreme offset/length/multiplier values; BAR sets incl. I/O, unallocated, 64-bit up to 2^63) are served through ConfigurationAccess and MmioCam; an independent capability re-parser with 128-bit containment arithmetic decides which outcome is acceptable; after construction every MMIO access is served by a register-level virtio-pci model laid out as the re-parser says, so any access outside the four windows or off the standard layout is a model fault; drop must reset and poll; SomeTransport::Pci must be trace-identical.",
+   "Trusted: PCI function model, re-parser, virtio-pci common-config model. Cyclic capability lists are not generated. Reserved bar values: refusing and skipping both accepted.",
+   "proptest over config spaces + independent re-parser oracle + register-level reference device trace"),
+ "C12": ("pci-bus", "exploration", "4 C12",
+   "BAR probing against a reference PCI function (truth of kind/address/size, byte-identical configuration space afterwards incl. error returns, no sizing write while decoding is on) over generated BAR sets x command values x access mechanism; cam_offset exhaustively over all 256x32x8x64 tuples x {CAM,ECAM} with injectivity bitmap; MmioCam accesses = one 32-bit access at base+offset; enumeration and capability walking against generated bus populations.",
+   "Trusted: reference PCI function model. cam_offset part is exhaustive; BAR sets and populations are sampled.",
+   "proptest over BAR encodings/bus populations + exhaustive address-tuple enumeration, reference-model oracle"),
  "C13": ("config-space", "exploration", "4 C13",
    "Bounds: exhaustive grid of window sizes, access types, offsets (incl. offsets whose end overflows usize) on MMIO legacy/modern and PCI with an exact byte-coverage oracle on the bus trace. Torn reads: the five multi-field reads of the drivers with the device switching self-identifying snapshots before every single access index, every pair, and generated larger sets; the result must be one exposed snapshot.",
    "Trusted: bus trace, emulated config window, snapshot scheduler. Legacy MMIO has no generation counter: untorn reads not asserted there.",
@@ -60,6 +68,10 @@ def main():
              "kind_free_text": "register-level virtio-mmio model behind safe-mmio custom-mmio; ordered access trace vs spec scripts"},
             {"name": "config-space", "path": "harness/src/props/c13.rs", "serves_properties": ["C13"],
              "kind_free_text": "exhaustive config-window bounds grid and config-update schedule enumeration on MMIO/PCI/model transports"},
+            {"name": "pci-transport", "path": "harness/src/props/c11.rs", "serves_properties": ["C11"],
+             "kind_free_text": "generated PCI config spaces + BARs, independent capability re-parser, register-level virtio-pci model"},
+            {"name": "pci-bus", "path": "harness/src/props/c12.rs", "serves_properties": ["C12"],
+             "kind_free_text": "reference PCI function/bus model behind ConfigurationAccess and emulated CAM/ECAM"},
             {"name": "notify", "path": "harness/src/props/c05.rs", "serves_properties": ["C05"],
              "kind_free_text": "exhaustive should_notify sweep/table on a real queue + spin-hook co-simulation of blocking helpers"},
             {"name": "layout", "path": "harness/src/props/c06.rs", "serves_properties": ["C06"],
